@@ -252,11 +252,16 @@ type tlcJob struct {
 	shard  int
 	shards int
 	parts  int
+	keep   int // 1 = everything; n = the fixed covering part + every n-th case of the bulk part (seeded offset)
 }
 
 func (j tlcJob) cfgText() string {
-	return fmt.Sprintf("SPECIFICATION Spec\nCONSTANTS\n  Family = \"%s\"\n  Size = %d\n  NParts = %d\n  Shard = %d\n  NShards = %d\nINVARIANTS\n  AllRoundTrips Inhabited\nCHECK_DEADLOCK FALSE\n",
-		j.family, j.size, j.parts, j.shard, j.shards)
+	keep := j.keep
+	if keep < 1 {
+		keep = 1
+	}
+	return fmt.Sprintf("SPECIFICATION Spec\nCONSTANTS\n  Family = \"%s\"\n  Size = %d\n  NParts = %d\n  Keep = %d\n  Seed = %d\n  Shard = %d\n  NShards = %d\nINVARIANTS\n  AllRoundTrips Inhabited\nCHECK_DEADLOCK FALSE\n",
+		j.family, j.size, j.parts, keep, j.seed%1000, j.shard, j.shards)
 }
 
 // genTrees runs the JsSyntaxGen configurations (several JVMs side by side) and returns the exported cases
@@ -804,22 +809,25 @@ func Run(r *core.Run) {
 	var jobs []tlcJob
 	if r.Thorough() {
 		for s := 0; s < 4; s++ {
-			jobs = append(jobs, tlcJob{family: "expr", size: 3, shard: s, shards: 4, parts: 8})
+			jobs = append(jobs, tlcJob{family: "expr", size: 3, shard: s, shards: 4, parts: 8, keep: 1})
 		}
 		for s := 0; s < 2; s++ {
-			jobs = append(jobs, tlcJob{family: "spine", size: 3, shard: s, shards: 2, parts: 8})
+			jobs = append(jobs, tlcJob{family: "spine", size: 3, shard: s, shards: 2, parts: 8, keep: 30, seed: r.Seed})
+			jobs = append(jobs, tlcJob{family: "mix", size: 3, shard: s, shards: 2, parts: 8, keep: 4, seed: r.Seed})
 		}
-		jobs = append(jobs, tlcJob{family: "skel", size: 2, shard: 0, shards: 1, parts: 16})
+		jobs = append(jobs, tlcJob{family: "skel", size: 2, shard: 0, shards: 1, parts: 16, keep: 1})
 		// random compositions of the same node classes to depth 3 (seeded)
 		for k := int64(0); k < 3; k++ {
 			jobs = append(jobs, tlcJob{family: "rand", size: 6000, shard: 0, shards: 1, parts: 8, seed: r.Seed*100 + k + 1})
 		}
 	} else {
-		for s := 0; s < 3; s++ {
-			jobs = append(jobs, tlcJob{family: "expr", size: 2, shard: s, shards: 3, parts: 8})
+		// quick: the fixed (label-covering) part of every family plus a seeded 1/keep slice of its bulk
+		for s := 0; s < 2; s++ {
+			jobs = append(jobs, tlcJob{family: "expr", size: 2, shard: s, shards: 2, parts: 8, keep: 12, seed: r.Seed})
 		}
-		jobs = append(jobs, tlcJob{family: "spine", size: 2, shard: 0, shards: 1, parts: 8})
-		jobs = append(jobs, tlcJob{family: "skel", size: 1, shard: 0, shards: 1, parts: 8})
+		jobs = append(jobs, tlcJob{family: "spine", size: 2, shard: 0, shards: 1, parts: 8, keep: 20, seed: r.Seed})
+		jobs = append(jobs, tlcJob{family: "mix", size: 2, shard: 0, shards: 1, parts: 8, keep: 60, seed: r.Seed})
+		jobs = append(jobs, tlcJob{family: "skel", size: 1, shard: 0, shards: 1, parts: 8, keep: 6, seed: r.Seed})
 	}
 	// developer aid: C01_FAMILIES=expr,spine,skel,lit restricts the families (never set by bin/check users)
 	if only := os.Getenv("C01_FAMILIES"); only != "" {
